@@ -21,7 +21,7 @@ ID = 'C08'
 LEVEL = 'exploration'
 TECHNIQUE = ('runtime monitoring: exception taxonomy + result-shape contract + logical step/read budgets '
              '(sys.monitoring PY_START/PY_RESUME counter) over exhaustive short strings, mutated encodings and '
-             'grammar-built TLV trees')
+             'grammar-built TLV trees, huge integer-valued fields under the default int-to-str limit, constrained guiding types')
 RULE = ('inputs = (i) ALL byte strings of length <= 3 over a 28-octet structural alphabet, (ii) valid encodings damaged '
         'by 1..3 mutations (bit flips, structural overwrite, insert/delete, tag/length rewrites incl. 0x80 and huge '
         'lengths, truncation, splice), (iii) TLV trees with wrong lengths/tags nested up to depth 40, (iv) ALL contents '
